@@ -940,3 +940,52 @@ func ruleREUSEEQUAL(c *Ctx) {
 		c.Lost(rule, key, "no reference to the existing helper (len(Terminals) + existing) found")
 	}
 }
+
+// GUARD(comment-single-line): Symbol.Comment is printed by every target's token template as a
+// line comment next to the token constant (`ID  // comment`). A comment that contains a line
+// break ends the Go/TS/C++ comment early and the rest of it becomes part of the enum: an extra
+// constant that shifts the value of every following token. resolveTokenComments takes the
+// comment from the rule's constant pattern text, which may contain \n (/\nabc/); the text must
+// pass a line-break test before it is stored.
+func ruleCOMMENTLINE(c *Ctx) {
+	const rule = "GUARD(comment-single-line)"
+	key := "compiler.lexerCompiler.resolveTokenComments:newline"
+	f := c.SSAFunc("compiler", "(*lexerCompiler).resolveTokenComments")
+	if f == nil {
+		c.Lost(rule, key, "function not found")
+		return
+	}
+	var constVal ssa.Value
+	for _, b := range f.Blocks {
+		for _, ins := range b.Instrs {
+			if ex, ok := ins.(*ssa.Extract); ok && ex.Index == 0 {
+				if call, ok := ex.Tuple.(*ssa.Call); ok {
+					if g := call.Call.StaticCallee(); g != nil && g.Name() == "Constant" {
+						constVal = ex
+					}
+				}
+			}
+		}
+	}
+	if constVal == nil {
+		c.Lost(rule, key, "the call of Regexp.Constant() was not found")
+		return
+	}
+	for _, b := range f.Blocks {
+		for _, ins := range b.Instrs {
+			call, ok := ins.(*ssa.Call)
+			if !ok {
+				continue
+			}
+			g := call.Call.StaticCallee()
+			if g == nil || g.Pkg == nil || g.Pkg.Pkg.Path() != "strings" || len(call.Call.Args) < 2 || call.Call.Args[0] != constVal {
+				continue
+			}
+			if k, ok := call.Call.Args[1].(*ssa.Const); ok && k.Value != nil && strings.Contains(k.Value.ExactString(), `\n`) {
+				c.Ok(rule, key, call.Pos(), "the constant text of a pattern is tested for line breaks before it becomes a token comment")
+				return
+			}
+		}
+	}
+	c.Bad(rule, key, f.Pos(), "the constant text of a lexer pattern becomes Symbol.Comment without a line-break test: for /\\nabc/ the generated token file contains `NL //` followed by a line `abc`, a stray enum constant that shifts the values of all following tokens")
+}
